@@ -2,7 +2,43 @@
    the library sources of the CURRENT tree and prints one canonical line per operation.
    The same case file is consumed by harness/C04/mdrv.ml (the extracted Gallina model).
    a_alloc is replaced by a shim that answers from the history's fault schedule, refuses requests
-   above the history's limit, fills fresh memory with 0xA5 and keeps a ledger of live blocks. */
+   above the history's limit, fills fresh memory with 0xA5 and keeps a ledger of live blocks.
+
+   CASE LINES (numbers are hexadecimal, elements are hex byte strings, "-" = empty)
+     H <limit> <schedule|->        new history (allocator limit, fault schedule of 0/1 answers)
+     vn <w> <siz> | vc <w> <siz>   vector w (0/1): a_vec_new  |  a_alloc(sizeof(a_vec)) + a_vec_ctor
+     vd <w> <d>   | vx <w> <d>     a_vec_die  |  a_vec_dtor + a_alloc(ctx, 0)      (d = 1: with destructor)
+     vs                            a_vec_swap(v0, v1)
+     bn <siz> <num> | bc <siz> <num>   a_buf_new  |  a_alloc(sizeof(a_buf) + siz * num) + a_buf_ctor
+     bd <d>       | bx <d>         a_buf_die  |  a_buf_dtor + a_alloc(ctx, 0)
+     v <w> <op> ... | b <op> ...   one operation on vector w / on the buffer, <op> one of
+        setm m | setn n d fill | setz z d | sort | sortf | sortb | pushs key | search key | ins idx v |
+        pushf v | pushb v | push v (alias a_vec_push / a_buf_push) | rem idx | pullf | pullb |
+        pull (alias a_vec_pull / a_buf_pull) | store idx v,v,.. copyflag | erase idx cnt d | at idx | of idx |
+        top | end
+   OUTPUT LINE (one per case line other than H, which prints "H <k>")
+     <ret> d=[<destroyed elements>] e=[<allocator events>] [x:z=..,n=..,m=..,p=..] <container>.. L=<blocks>:<bytes>
+     <ret>       void | rc=<int> | ptr=NULL | ptr=<byte offset>:<element hex or ?> | found=<hex>|none
+     e=[..]      M<size>+/- malloc, R<size>+/- realloc, F free, BAD release of a block that is not live
+     x:..        only after vx / bx: the fields of the structure as a_vec_dtor / a_buf_dtor left them
+     <container> " v0:nil" or " v0:z=<siz>,n=<num>,m=<mem>,p=<0|1>,o=<owned>[e,e,..] acc=<A>"  (v0 | v1 | b; fields
+                 are read directly from the structure; <owned> = bytes of element storage the allocator shim
+                 recorded for the container: size of the live block ptr_ points to, for the buffer the block
+                 size minus sizeof(a_buf); "?" if the storage pointer is not a live block), where <A> is the
+                 verdict on the inline accessors of vec.h / buf.h, all evaluated on the state just printed:
+                   ok                              every accessor agrees with the fields
+                   BAD:<function>:<got>:<want>     first accessor that does not (pointers as byte offsets from
+                                                   the base of the owned storage, NULL as "NULL")
+                 accessors evaluated (unchecked ones only where their precondition holds):
+                   a_vec_ptr a_vec_siz a_vec_num a_vec_mem; a_vec_at_ and a_vec_at at 0, num-1, num, mem-1
+                   (those < mem); a_vec_at at mem and SIZE_MAX (NULL); a_vec_top_ (num > 0), a_vec_top,
+                   a_vec_of(-1) (= top), a_vec_of(0); a_vec_end_ (storage present), a_vec_end;
+                   the same list for a_buf_* (a_buf_ptr = ctx + 1; buf.h has no a_buf_end_).
+   ELEMENT SIZES ABOVE ELEM_MAX (65536 = the largest allocator limit, so no such element can exist in correct
+   code): the driver never reads or writes element bytes - no element is parsed, stored, dumped or handed to a
+   callback; every element prints as "?".  Only rc / returned offset / num / mem / allocator trace / owned bytes
+   are observed.  The unchecked accessors are evaluated only on slots that lie inside the owned bytes.
+   Never an address, never a decimal float. */
 #include "a/a.h"
 #include "a/vec.h"
 #include "a/buf.h"
@@ -97,6 +133,8 @@ static void free_all(void)
 }
 
 /* ------------------------------------------------------------------ callbacks */
+#define ELEM_MAX 65536
+#define HUGE(siz) ((siz) > ELEM_MAX)
 static size_t cur_siz = 1;
 static char *dtbuf;           /* destructor log: grows as needed (libc malloc, not the shim) */
 static size_t dtcap;
@@ -122,13 +160,18 @@ static void hexout(char *dst, size_t *len, size_t cap, void const *p, size_t n)
 
 static void dtor_cb(void *p)
 {
-    dt_room(2 * cur_siz + 2);
+    dt_room(HUGE(cur_siz) ? 4 : 2 * cur_siz + 2);
     if (dtlen) { dtbuf[dtlen++] = ','; }
+    if (HUGE(cur_siz)) { dtbuf[dtlen++] = '?'; return; }
     hexout(dtbuf, &dtlen, dtcap, p, cur_siz);
 }
 
-static int cmp_cb(void const *l, void const *r) { return memcmp(l, r, cur_siz); }
-static int copy_cb(void *d, void const *s) { memcpy(d, s, cur_siz); return 0; }
+static int cmp_cb(void const *l, void const *r) { return HUGE(cur_siz) ? 0 : memcmp(l, r, cur_siz); }
+static int copy_cb(void *d, void const *s)
+{
+    if (!HUGE(cur_siz)) { memcpy(d, s, cur_siz); }
+    return 0;
+}
 
 /* ------------------------------------------------------------------ parsing */
 static unsigned long long hexnum(char const *s) { return strtoull(s, 0, 16); }
@@ -137,6 +180,7 @@ static unsigned long long hexnum(char const *s) { return strtoull(s, 0, 16); }
 static void parse_elem(char const *s, unsigned char *dst, size_t siz)
 {
     size_t i = 0;
+    if (HUGE(siz)) { return; }
     memset(dst, 0, siz);
     if (s[0] == '-') { return; }
     while (s[0] && s[1] && i < siz)
@@ -165,7 +209,7 @@ static void print_ptr(void const *base, size_t siz, size_t lim, void const *p)
     {
         size_t const off = (size_t)((char const *)p - (char const *)base);
         printf("ptr=%zu:", off);
-        if (siz && off / siz < lim) { print_hex(p, siz); }
+        if (siz && !HUGE(siz) && off / siz < lim) { print_hex(p, siz); }
         else { printf("?"); }
     }
 }
@@ -175,37 +219,175 @@ static void print_tail(void)
     printf(" d=[%.*s] e=[%.*s]", (int)dtlen, dtbuf ? dtbuf : "", (int)evlen, evbuf);
 }
 
-static void print_arr(char const *tag, int present, void const *base, size_t siz, size_t num, size_t mem)
+/* owned: bytes of element storage recorded by the shim, (size_t)-1 = the storage is not a live block */
+static void print_arr(char const *tag, int present, void const *base, size_t siz, size_t num, size_t mem,
+                      size_t owned)
 {
     size_t i, n = num < mem ? num : mem;
     if (!present) { printf(" %s:nil", tag); return; }
-    printf(" %s:z=%zu,n=%zu,m=%zu,p=%d[", tag, siz, num, mem, base != A_NULL);
+    printf(" %s:z=%zu,n=%zu,m=%zu,p=%d,o=", tag, siz, num, mem, base != A_NULL);
+    if (owned == (size_t)-1) { printf("?["); }
+    else { printf("%zu[", owned); }
+    if (HUGE(siz) && n > 16) { n = 16; }
     for (i = 0; i < n && base; ++i)
     {
         if (i) { putchar(','); }
-        print_hex((char const *)base + i * siz, siz);
+        if (HUGE(siz)) { putchar('?'); }
+        else { print_hex((char const *)base + i * siz, siz); }
     }
     printf("]");
+}
+
+static size_t owned_vec(a_vec const *v)
+{
+    int i;
+    if (!v->ptr_) { return 0; }
+    i = blk_find(v->ptr_);
+    return i < 0 ? (size_t)-1 : blk[i].n;
+}
+
+static size_t owned_buf(a_buf const *b)
+{
+    int const i = blk_find((void *)b);
+    return i < 0 || blk[i].n < sizeof(a_buf) ? (size_t)-1 : blk[i].n - sizeof(a_buf);
+}
+
+
+/* ------------------------------------------------------------------ accessors
+   Every inline accessor of vec.h / buf.h is evaluated on the state just printed and compared with what the
+   fields imply.  The first disagreement is remembered: acc=BAD:<function>:<got>:<want>. */
+static char accbuf[160];
+static int accbad;
+
+static void acc_num(char const *fn, size_t got, size_t want)
+{
+    if (!accbad && got != want)
+    {
+        accbad = 1;
+        sprintf(accbuf, "BAD:%s:%zu:%zu", fn, got, want);
+    }
+}
+
+/* want: byte offset from base, or (size_t)-1 for NULL */
+static void acc_ptr(char const *fn, void const *base, void const *got, size_t want)
+{
+    int const wn = want == (size_t)-1;
+    if (accbad) { return; }
+    if (wn ? got == A_NULL : (got != A_NULL && (size_t)((char const *)got - (char const *)base) == want)) { return; }
+    accbad = 1;
+    {
+        int n = sprintf(accbuf, "BAD:%s:", fn);
+        if (got) { n += sprintf(accbuf + n, "%zu:", (size_t)((char const *)got - (char const *)base)); }
+        else { n += sprintf(accbuf + n, "NULL:"); }
+        if (wn) { sprintf(accbuf + n, "NULL"); }
+        else { sprintf(accbuf + n, "%zu", want); }
+    }
+}
+
+#define NIL ((size_t)-1)
+static void acc_vec(a_vec const *v)
+{
+    char const *const base = (char const *)v->ptr_;
+    size_t const siz = v->siz_, num = v->num_, mem = v->mem_;
+    size_t probe[4], i;
+    accbad = 0;
+    if (a_vec_ptr(v) != v->ptr_)
+    {
+        accbad = 1;
+        sprintf(accbuf, "BAD:a_vec_ptr:%s:%s", a_vec_ptr(v) ? "other" : "NULL", v->ptr_ ? "base" : "NULL");
+    }
+    acc_num("a_vec_siz", a_vec_siz(v), siz);
+    acc_num("a_vec_num", a_vec_num(v), num);
+    acc_num("a_vec_mem", a_vec_mem(v), mem);
+    /* broken state (count above capacity, capacity without the storage for it): the unchecked accessors have no
+       meaning and are not called */
+    if (num > mem || (mem && !base) || (mem && (owned_vec(v) == NIL || siz > owned_vec(v) / mem))) { goto done; }
+    probe[0] = 0; probe[1] = num - 1; probe[2] = num; probe[3] = mem - 1;
+    for (i = 0; i < 4; ++i)
+    {
+        size_t const k = probe[i];
+        if (k < mem)
+        {
+            acc_ptr("a_vec_at_", base, a_vec_at_(v, k), siz * k);
+            acc_ptr("a_vec_at", base, a_vec_at(v, k), siz * k);
+        }
+        else { acc_ptr("a_vec_at", base, a_vec_at(v, k), NIL); }
+    }
+    acc_ptr("a_vec_at", base, a_vec_at(v, mem), NIL);
+    acc_ptr("a_vec_at", base, a_vec_at(v, A_SIZE_MAX), NIL);
+    if (num)
+    {
+        acc_ptr("a_vec_top_", base, a_vec_top_(v), siz * (num - 1));
+        acc_ptr("a_vec_top", base, a_vec_top(v), siz * (num - 1));
+        acc_ptr("a_vec_of", base, a_vec_of(v, -1), siz * (num - 1));
+    }
+    else { acc_ptr("a_vec_top", base, a_vec_top(v), NIL); }
+    acc_ptr("a_vec_of", base, a_vec_of(v, 0), mem ? 0 : NIL);
+    if (base)
+    {
+        acc_ptr("a_vec_end_", base, a_vec_end_(v), siz * num);
+        acc_ptr("a_vec_end", base, a_vec_end(v), siz * num);
+    }
+    else { acc_ptr("a_vec_end", base, a_vec_end(v), NIL); }
+done:
+    printf(" acc=%s", accbad ? accbuf : "ok");
+}
+
+static void acc_buf(a_buf const *b)
+{
+    char const *const base = (char const *)(b + 1);
+    size_t const siz = b->siz_, num = b->num_, mem = b->mem_;
+    size_t probe[4], i;
+    accbad = 0;
+    acc_ptr("a_buf_ptr", base, a_buf_ptr(b), 0);
+    acc_num("a_buf_siz", a_buf_siz(b), siz);
+    acc_num("a_buf_num", a_buf_num(b), num);
+    acc_num("a_buf_mem", a_buf_mem(b), mem);
+    if (num > mem || (mem && (owned_buf(b) == NIL || siz > owned_buf(b) / mem))) { goto done; }
+    probe[0] = 0; probe[1] = num - 1; probe[2] = num; probe[3] = mem - 1;
+    for (i = 0; i < 4; ++i)
+    {
+        size_t const k = probe[i];
+        if (k < mem)
+        {
+            acc_ptr("a_buf_at_", base, a_buf_at_(b, k), siz * k);
+            acc_ptr("a_buf_at", base, a_buf_at(b, k), siz * k);
+        }
+        else { acc_ptr("a_buf_at", base, a_buf_at(b, k), NIL); }
+    }
+    acc_ptr("a_buf_at", base, a_buf_at(b, mem), NIL);
+    acc_ptr("a_buf_at", base, a_buf_at(b, A_SIZE_MAX), NIL);
+    if (num)
+    {
+        acc_ptr("a_buf_top_", base, a_buf_top_(b), siz * (num - 1));
+        acc_ptr("a_buf_top", base, a_buf_top(b), siz * (num - 1));
+        acc_ptr("a_buf_of", base, a_buf_of(b, -1), siz * (num - 1));
+    }
+    else { acc_ptr("a_buf_top", base, a_buf_top(b), NIL); }
+    acc_ptr("a_buf_of", base, a_buf_of(b, 0), mem ? 0 : NIL);
+    acc_ptr("a_buf_end", base, a_buf_end(b), siz * num);
+done:
+    printf(" acc=%s", accbad ? accbuf : "ok");
 }
 
 static void print_vec(int w)
 {
     a_vec *v = V[w];
-    if (v) { print_arr(w ? "v1" : "v0", 1, v->ptr_, v->siz_, v->num_, v->mem_); }
-    else { print_arr(w ? "v1" : "v0", 0, 0, 0, 0, 0); }
+    if (v) { print_arr(w ? "v1" : "v0", 1, v->ptr_, v->siz_, v->num_, v->mem_, owned_vec(v)); acc_vec(v); }
+    else { print_arr(w ? "v1" : "v0", 0, 0, 0, 0, 0, 0); }
 }
 
 static void print_buf(void)
 {
-    if (B) { print_arr("b", 1, a_buf_ptr(B), B->siz_, B->num_, B->mem_); }
-    else { print_arr("b", 0, 0, 0, 0, 0); }
+    if (B) { print_arr("b", 1, B + 1, B->siz_, B->num_, B->mem_, owned_buf(B)); acc_buf(B); }
+    else { print_arr("b", 0, 0, 0, 0, 0, 0); }
 }
 
 #define MAXTOK 8
 static char *tok[MAXTOK];
 static int ntok;
 
-static unsigned char e1[4096];
+static unsigned char e1[ELEM_MAX];
 static unsigned char *many;
 
 /* one container operation; isbuf selects the a_buf_* entry points */
@@ -242,13 +424,13 @@ static void do_op(int isbuf, int w, char **t, int nt)
         if (isbuf)
         {
             a_buf_setn(b, n, d ? dtor_cb : 0);
-            for (i = old; i < b->num_; ++i) { memcpy(a_buf_at_(b, i), e1, siz); }
+            for (i = old; i < b->num_ && !HUGE(siz); ++i) { memcpy(a_buf_at_(b, i), e1, siz); }
             printf("void");
         }
         else
         {
             int const rc = a_vec_setn(v, n, d ? dtor_cb : 0);
-            if (rc == 0) { for (i = old; i < v->num_; ++i) { memcpy(a_vec_at_(v, i), e1, siz); } }
+            if (rc == 0) { for (i = old; i < v->num_ && !HUGE(siz); ++i) { memcpy(a_vec_at_(v, i), e1, siz); } }
             printf("rc=%d", rc);
         }
     }
@@ -275,7 +457,8 @@ static void do_op(int isbuf, int w, char **t, int nt)
         if (isbuf) { a_buf_sort_back(b, cmp_cb); } else { a_vec_sort_back(v, cmp_cb); }
         printf("void");
     }
-    else if (!strcmp(o, "pushs") || !strcmp(o, "ins") || !strcmp(o, "pushf") || !strcmp(o, "pushb"))
+    else if (!strcmp(o, "pushs") || !strcmp(o, "ins") || !strcmp(o, "pushf") || !strcmp(o, "pushb") ||
+             !strcmp(o, "push"))
     {
         void *p;
         if (!strcmp(o, "pushs"))
@@ -294,12 +477,17 @@ static void do_op(int isbuf, int w, char **t, int nt)
             parse_elem(t[1], e1, siz);
             p = isbuf ? a_buf_push_fore(b) : a_vec_push_fore(v);
         }
+        else if (!strcmp(o, "push"))
+        {
+            parse_elem(t[1], e1, siz);
+            p = isbuf ? a_buf_push(b) : a_vec_push(v);
+        }
         else
         {
             parse_elem(t[1], e1, siz);
             p = isbuf ? a_buf_push_back(b) : a_vec_push_back(v);
         }
-        if (p) { memcpy(p, e1, siz); }
+        if (p && !HUGE(siz)) { memcpy(p, e1, siz); }
         print_ptr(BASE, siz, NUM, p);
     }
     else if (!strcmp(o, "search"))
@@ -310,7 +498,7 @@ static void do_op(int isbuf, int w, char **t, int nt)
         printf("found=");
         if (p) { print_hex(p, siz); } else { printf("none"); }
     }
-    else if (!strcmp(o, "rem") || !strcmp(o, "pullf") || !strcmp(o, "pullb"))
+    else if (!strcmp(o, "rem") || !strcmp(o, "pullf") || !strcmp(o, "pullb") || !strcmp(o, "pull"))
     {
         void *p;
         if (!strcmp(o, "rem"))
@@ -319,6 +507,7 @@ static void do_op(int isbuf, int w, char **t, int nt)
             p = isbuf ? a_buf_remove(b, idx) : a_vec_remove(v, idx);
         }
         else if (!strcmp(o, "pullf")) { p = isbuf ? a_buf_pull_fore(b) : a_vec_pull_fore(v); }
+        else if (!strcmp(o, "pull")) { p = isbuf ? a_buf_pull(b) : a_vec_pull(v); }
         else { p = isbuf ? a_buf_pull_back(b) : a_vec_pull_back(v); }
         print_ptr(BASE, siz, MEM, p);
     }
@@ -334,9 +523,10 @@ static void do_op(int isbuf, int w, char **t, int nt)
             size_t commas = 1;
             char const *c;
             for (c = s; *c; ++c) { commas += *c == ','; }
-            many = (unsigned char *)malloc(commas * siz + 1);
+            many = (unsigned char *)malloc(HUGE(siz) ? 1 : commas * siz + 1);
         }
-        if (strcmp(s, "-"))
+        if (HUGE(siz)) { cnt = strcmp(s, "-") ? 1 : 0; } /* a count only: nothing may be copied (and nothing can fit) */
+        else if (strcmp(s, "-"))
         {
             char *q = s;
             for (;;)
@@ -425,10 +615,21 @@ int main(void)
             fflush(stdout); /* a crash is attributed to the last history announced */
             continue;
         }
-        if (!strcmp(tok[0], "vn"))
+        if (!strcmp(tok[0], "vn") || !strcmp(tok[0], "vc"))
         {
             int const w = tok[1][0] == '1';
-            if (!V[w]) { V[w] = a_vec_new((a_size)hexnum(tok[2])); }
+            if (!V[w])
+            {
+                if (tok[0][1] == 'n') { V[w] = a_vec_new((a_size)hexnum(tok[2])); }
+                else
+                {
+                    /* the same construction by hand: the structure comes from a_alloc (0xA5-filled), a_vec_ctor
+                       has to initialise every field */
+                    a_vec *const ctx = (a_vec *)a_alloc(A_NULL, sizeof(a_vec));
+                    if (ctx) { a_vec_ctor(ctx, (a_size)hexnum(tok[2])); }
+                    V[w] = ctx;
+                }
+            }
             printf("void");
             print_tail();
             print_vec(w);
@@ -446,6 +647,25 @@ int main(void)
             print_tail();
             print_vec(w);
         }
+        else if (!strcmp(tok[0], "vx"))
+        {
+            int const w = tok[1][0] == '1';
+            a_vec *const ctx = V[w];
+            size_t z = 0, n = 0, m = 0;
+            int p = 0;
+            if (ctx)
+            {
+                cur_siz = ctx->siz_;
+                a_vec_dtor(ctx, tok[2][0] == '1' ? dtor_cb : 0);
+                z = ctx->siz_; n = ctx->num_; m = ctx->mem_; p = ctx->ptr_ != A_NULL;
+                a_alloc(ctx, 0);
+                V[w] = A_NULL;
+            }
+            printf("void");
+            print_tail();
+            if (ctx) { printf(" x:z=%zu,n=%zu,m=%zu,p=%d", z, n, m, p); }
+            print_vec(w);
+        }
         else if (!strcmp(tok[0], "vs"))
         {
             if (V[0] && V[1]) { a_vec_swap(V[0], V[1]); }
@@ -461,9 +681,19 @@ int main(void)
             print_tail();
             print_vec(w);
         }
-        else if (!strcmp(tok[0], "bn"))
+        else if (!strcmp(tok[0], "bn") || !strcmp(tok[0], "bc"))
         {
-            if (!B) { B = a_buf_new((a_size)hexnum(tok[1]), (a_size)hexnum(tok[2])); }
+            if (!B)
+            {
+                a_size const siz = (a_size)hexnum(tok[1]), num = (a_size)hexnum(tok[2]);
+                if (tok[0][1] == 'n') { B = a_buf_new(siz, num); }
+                else
+                {
+                    a_buf *const ctx = (a_buf *)a_alloc(A_NULL, sizeof(a_buf) + (siz ? siz : 1) * num);
+                    if (ctx) { a_buf_ctor(ctx, siz, num); }
+                    B = ctx;
+                }
+            }
             printf("void");
             print_tail();
             print_buf();
@@ -478,6 +708,23 @@ int main(void)
             }
             printf("void");
             print_tail();
+            print_buf();
+        }
+        else if (!strcmp(tok[0], "bx"))
+        {
+            a_buf *const ctx = B;
+            size_t z = 0, n = 0, m = 0;
+            if (ctx)
+            {
+                cur_siz = ctx->siz_;
+                a_buf_dtor(ctx, tok[1][0] == '1' ? dtor_cb : 0);
+                z = ctx->siz_; n = ctx->num_; m = ctx->mem_;
+                a_alloc(ctx, 0);
+                B = A_NULL;
+            }
+            printf("void");
+            print_tail();
+            if (ctx) { printf(" x:z=%zu,n=%zu,m=%zu,p=1", z, n, m); }
             print_buf();
         }
         else if (!strcmp(tok[0], "b"))
